@@ -139,6 +139,8 @@ def make_variant(crystal, vi, rnd, nvariants):
                  perm=rnd.randrange(1 << 30), jitter=None, rseed=rnd.randrange(1 << 30), hints=None, dims=None)
         if hs and rnd.random() < 0.5:
             v["hints"] = list(rnd.choice(hs))
+        if rnd.random() < 0.3:
+            v["split"] = rnd.randrange(1 << 30)
         return v
     v = dict(cls=rnd.randrange(NORMAL_CLASSES), Q=rnd.randrange(1 << 30) if vi % 2 == 1 else None,
              pmove=rnd.randrange(1 << 30), pcube=None, perm=rnd.randrange(1 << 30), jitter=rnd.randrange(1 << 30),
@@ -150,6 +152,8 @@ def make_variant(crystal, vi, rnd, nvariants):
         # partial hint: only one of the two axis points is given (the other is chosen by the library)
         k = rnd.choice([0, 0, len(pat) - 1, rnd.randrange(len(pat))])
         v["hints"] = [k, None, None] if rnd.random() < 0.5 else [None, k, None]
+    if rnd.random() < 0.3:
+        v["split"] = rnd.randrange(1 << 30)
     if rnd.random() < 0.4:
         # history: the same object is searched once in another state (atoms listed in another order and moved), then
         # brought into the state of this representation by in-place edits / rebinding / translate, and searched again
@@ -192,7 +196,14 @@ def build(crystal, v):
         Rp = katoms.random_rotation(pr)
         ppos = ppos @ Rp.T + pr.uniform(-20, 20, size=3)
     with contextlib.redirect_stderr(io.StringIO()):
-        st = Atoms(elements=[els[i] for i in perm], positions=pos[perm], cell=cell)
+        if v.get("split") is not None:
+            # force-field style typing: every element is listed under two atom type ids, atoms use either
+            uniq = sorted(set(els))
+            sr = random.Random(v["split"])
+            st = Atoms(atom_types=[uniq.index(els[i]) + (len(uniq) if sr.random() < 0.5 else 0) for i in perm],
+                       atom_type_elements=uniq + uniq, positions=pos[perm], cell=cell)
+        else:
+            st = Atoms(elements=[els[i] for i in perm], positions=pos[perm], cell=cell)
         pt = Atoms(elements=[a["el"] for a in crystal["pat"]], positions=ppos)
     return st, pt, dict(R=R, atol=atol, perm=perm, cell=cell)
 
